@@ -160,6 +160,15 @@ def variants():
     add("undef-alias@b", lambda s: mutrule(s, "b", " | 'zz'", aliases=["zz"]))
     add("undef-alias-in-list", lambda s: mutrule(s, "a", " @list(item, ';')", prefs=["item"], aliases=[";"]))
     add("ambiguous-alias", lambda s: mutrule(s, "b", " | '\"'", aliases=['"']))
+    def amb_n(s, extra):
+        for k in range(extra):
+            lexer_of(s, "b").append(D("mode", "@mode Other%d {" % k, "Other%d" % k, body=[
+                D("token", "OQ%d = '\"'" % k, "OQ%d" % k, lits=['"'], simple='"', mode="Other%d" % k)]))
+        return mutrule(s, "b", " | '\"'", aliases=['"'])
+    add("ambiguous-alias-3", lambda s: amb_n(s, 1))
+    add("ambiguous-alias-4", lambda s: amb_n(s, 2))
+    add("ambiguous-alias-5", lambda s: amb_n(s, 3))
+    add("ambiguous-alias-3-in-list", lambda s: (amb_n(s, 1), mutrule(s, "a", " @list(item, '\"')", prefs=["item"], aliases=['"']))[1])
     add("parser-refs-macro", lambda s: mutrule(s, "b", " | DIGIT", prefs=["DIGIT"]))
     add("parser-refs-mode", lambda s: mutrule(s, "b", " | Str", prefs=["Str"]))
     for where in ("default", "mode", "b"):
